@@ -25,6 +25,7 @@ import (
 	"math"
 	"os"
 	"reflect"
+	"slices"
 	"sort"
 
 	"github.com/siglens/siglens/pkg/config"
@@ -1588,8 +1589,12 @@ func (iqr *IQR) CreateStatsResults(bucketHolderArr []*structs.BucketHolder, meas
 		return err
 	}
 
-	iqr.groupbyColumns = aggGroupByCols
-	iqr.measureColumns = measureFuncs
+	// Copy the names: RenameColumn() renames them in place, and the slices we
+	// are given can belong to the caller (SearchResults.GetSegmentStatsResults()
+	// returns its own measure function list), which must keep the original
+	// names to be able to produce the result again.
+	iqr.groupbyColumns = slices.Clone(aggGroupByCols)
+	iqr.measureColumns = slices.Clone(measureFuncs)
 
 	if errIndex > 0 {
 		log.Errorf("qid=%v, IQR.CreateStatsResults: conversion errors: %v", iqr.qid, conversionErrors)
